@@ -11,6 +11,7 @@ import (
 )
 
 type Clause struct {
+	Assumed bool // unproved postcondition: used at call sites, not proved for the function (listed as an assumption)
 	Witness map[string]string // existential variable -> local variable name used as witness at returns
 	Raw   func(phis []Value, operand func(interface{}) string) string // engine-generated clause (auto invariants)
 	Label string
@@ -55,6 +56,7 @@ type Contract struct {
 	Results   []QVar
 	RecvName  string
 	Delegate  *TypeExpr // interface method contract = contract of this concrete type's method
+	Partial   bool     // only the explicit clauses (post/inv/dec) are claimed: implicit obligations (no-panic, callee preconditions, frame) are assumed, i.e. the clauses hold for runs that return normally
 	Prune     bool     // check branch feasibility during symbolic execution and skip infeasible branches
 	Reveal    []string // opaque spec predicates whose definition this function's proof may use
 	AllowPanic []string // explicit panic kinds that are part of the specified behaviour
@@ -89,10 +91,10 @@ type Lemma struct {
 }
 
 var clauseKeywords = map[string]bool{
-	"requires": true, "ensures": true, "modifies": true, "loop": true, "decreases": true,
+	"requires": true, "ensures": true, "ensures_assumed": true, "modifies": true, "loop": true, "decreases": true,
 	"props": true, "pure": true, "trusted": true, "func": true, "spec": true, "ghost": true,
 	"lemma": true, "axiom": true, "assume": true, "package": true, "nopanic": true, "iface": true,
-	"allowpanic": true, "delegates": true, "reveal": true, "owned": true, "prune": true,
+	"allowpanic": true, "delegates": true, "reveal": true, "owned": true, "prune": true, "partial": true,
 }
 
 var funcHdr = regexp.MustCompile(`^func\s+(?:\(\s*(?:([\w]+)\s+)?(\*?)([\w.]+)\s*\)\s*)?([\w$]+)\s*\(`)
@@ -297,6 +299,8 @@ func (p *Program) parseClause(c *Contract, word, rest, src string) error {
 		c.AllowPanic = append(c.AllowPanic, strings.Fields(rest)...)
 	case "prune":
 		c.Prune = true
+	case "partial":
+		c.Partial = true
 	case "reveal":
 		for _, f := range strings.Fields(strings.ReplaceAll(rest, ",", " ")) {
 			c.Reveal = append(c.Reveal, f)
@@ -316,11 +320,12 @@ func (p *Program) parseClause(c *Contract, word, rest, src string) error {
 			cl.Label = strconv.Itoa(len(c.Requires) + 1)
 		}
 		c.Requires = append(c.Requires, cl)
-	case "ensures":
+	case "ensures", "ensures_assumed":
 		cl, err := mk(rest)
 		if err != nil {
 			return err
 		}
+		cl.Assumed = word == "ensures_assumed"
 		if cl.Label == "" {
 			cl.Label = strconv.Itoa(len(c.Ensures) + 1)
 		}
